@@ -47,6 +47,11 @@ def part_ranges(parts, T, what):
             raise Violation(what + '-part-contiguous', f'part {k} holds source frames {fr.tolist()}')
         if fr[0] < prev_end:
             raise Violation(what + '-parts-non-overlapping-ordered', f'part {k} starts at source frame {fr[0]} but the previous part ended at {prev_end}; lengths {[len(q) for q in parts]} of {T} frames')
+        # ... and stay that frame range after the part itself went through a representation switch
+        gcall(lambda: p.displacements)
+        pos2 = np.array(gcall(lambda: p.positions))
+        if np.abs(((pos2 - pos + 0.5) % 1.0) - 0.5).max() > 1e-9:
+            raise Violation(what + '-part-frames-altered', f'part {k} (source frames {fr[0]}..{fr[0] + L - 1}) changes its positions after a displacements/positions round trip')
         out.append((int(fr[0]), L))
         prev_end = fr[0] + L
     return out
